@@ -414,7 +414,7 @@ fn judge_crash(input: &Value, ctx: &mut Ctx) -> CaseOut {
 fn hover_text(p: &GProg, t: &Ty) -> Option<String> {
     fn covered(t: &Ty) -> bool {
         match t {
-            Ty::Unit | Ty::Bool | Ty::Int(_) | Ty::Str | Ty::Param(_) => true,
+            Ty::Unit | Ty::Bool | Ty::Int(_) | Ty::Float(_) | Ty::Str | Ty::Param(_) => true,
             Ty::Tuple(ts) => ts.iter().all(covered),
             Ty::Array(t, _) | Ty::Vec(t) | Ty::Ref(t) => covered(t),
             Ty::Fn(ps, r) => ps.iter().all(covered) && covered(r),
